@@ -1,7 +1,7 @@
 (* Base facts for C09: cache keys and policies (lawfulness of the own SimpleCache / LRUCache models), facts about
    Pipe.eval (fuel monotonicity, determinism), well-formed pipelines (unique producers, consistent defaults), and the
    rank function induced by the Kahn layering (every upstream function has a smaller rank). *)
-From Verif Require Import Base.Prelude Base.StrOrd Base.Graph Model.Pipe Model.CacheSem Proofs.GraphFacts.
+From Verif Require Import Base.Prelude Base.StrOrd Base.Graph Model.Pipe Model.CacheSem Model.CacheSemSpec Proofs.GraphFacts.
 
 (* ------------------------------------------------------------------ boolean equalities *)
 Lemma list_eqb_iff {A} (eqb : A -> A -> bool) :
@@ -41,23 +41,6 @@ Proof.
 Qed.
 
 (* ------------------------------------------------------------------ lawful policies *)
-(* the entry a lookup would return *)
-Definition lookup {C} (P : policy C) (c : C) (k : ckey) : option str :=
-  if cmem P c k then fst (cget P c k) else None.
-
-(* What every replacement policy guarantees: an entry that is resident was put with that value since the last
-   clear (get / put never invent or alter entries; eviction only removes them).  `good` is an invariant of the
-   container's reachable states. *)
-Record lawful {C} (P : policy C) (good : C -> Prop) : Prop := {
-  L_good_get : forall c k, good c -> good (snd (cget P c k));
-  L_good_put : forall c k v, good c -> good (cput P c k v);
-  L_good_clear : forall c, good c -> good (cclear P c);
-  L_some : forall c k, good c -> cmem P c k = true -> fst (cget P c k) <> None;
-  L_get : forall c k k' v, good c -> lookup P (snd (cget P c k)) k' = Some v -> lookup P c k' = Some v;
-  L_put : forall c k v k' v', good c -> lookup P (cput P c k v) k' = Some v' -> (k' = k /\ v' = v) \/ lookup P c k' = Some v';
-  L_clear : forall c k, good c -> lookup P (cclear P c) k = None
-}.
-
 (* --- SimpleCache --- *)
 Lemma simple_lookup c k : lookup simple_policy c k = sfind c k.
 Proof. unfold lookup. cbn. destruct (sfind c k); reflexivity. Qed.
@@ -245,9 +228,7 @@ Section Eval.
   Variable body : str -> alist -> result str.
   Variable pick : str -> str -> str.
 
-  (* the raw result of f in the evaluation with keywords kw *)
-  Definition eval_raw (n : nat) (p : pipeline) (kw : alist) (f : pfunc) : result str :=
-    do args <- args_with (eval body pick n p kw) p kw f; body (fname f) args.
+  Notation eval_raw := (eval_raw body pick).
 
   Lemma eval_S n p kw o :
     eval body pick (S n) p kw o =
